@@ -79,6 +79,14 @@ def replace_stdout():
     return 7
 
 
+def then_spin(which):
+    """Change some process-wide state, then never return (the executor has to abandon this execution)."""
+    {"hush": hush, "reseed": reseed, "chatter": chatter, "replace_stdout": replace_stdout, "burn": burn, "unhush": unhush}[which]()
+    n = 0
+    while True:
+        n += 1
+
+
 def probe(flag):
     a, b, c = draw()
     if flag and (a + b + c) % 2 == 0:
@@ -247,7 +255,63 @@ def bounded_c30(tier, seed):
     return guarded(p, _check_c30, tier, seed)
 
 
-BOUNDED = [bounded_c30]
+def _check_aborted(part: Part, tier, seed):
+    """The same isolation after executions the executor has to abandon (time-out): the worker thread never reaches its own clean-up."""
+    import logging, shutil, sys, threading  # noqa: E401
+    from pynguin.testcase.execution import TestCaseExecutor
+    logging.disable(logging.NOTSET)
+    workdir, hook, executor = _setup()
+    try:
+        fast = TestCaseExecutor(executor.subject_properties, maximum_test_execution_timeout=0.3, test_execution_time_per_statement=0.3)
+        base = _state()
+        probes = ["probe(False)", "chatter()"]
+        reference = {}
+        for pr in probes:
+            res = fast.execute(_tc(pr))
+            reference[pr] = (res.timeout, sorted((k, type(v).__name__, str(v)) for k, v in res.exceptions.items()))
+        whiches = ["hush", "reseed", "chatter", "replace_stdout", "burn", "unhush"]
+        for which in whiches:
+            for pr in probes:
+                part.case()
+                res = fast.execute(_tc(f"then_spin({which!r})"))
+                if not res.timeout:
+                    part.error(f"then_spin({which!r}) did not time out")
+                    continue
+                now = _state()
+                bad = [k for k in base if now[k] != base[k]]
+                if bad:
+                    part.violation("after executing a test case Pynguin's standard streams, logging state and own random stream are "
+                                   "as before", f"state-after-timeout:{','.join(bad)}:{which}",
+                                   {"test_case": f"then_spin({which!r}) (changes the state, then loops until the executor gives up)",
+                                    "changed": {k: (base[k], now[k]) for k in bad}}, target=f"{EX}:TestCaseExecutor.execute")
+                    _repair(base)
+                res2 = fast.execute(_tc(pr))
+                sig = (res2.timeout, sorted((k, type(v).__name__, str(v)) for k, v in res2.exceptions.items()))
+                if sig != reference[pr]:
+                    part.violation("the result of a test case does not depend on which test cases ran before it",
+                                   f"order-after-timeout:{pr}:{which}", {"probe": pr, "before_it": f"then_spin({which!r}) timed out",
+                                                                          "result": repr(sig)[:300], "reference_result": repr(reference[pr])[:300]},
+                                   target=f"{EX}:TestCaseExecutor.execute")
+                for th in threading.enumerate():
+                    if th is not threading.current_thread() and th.daemon:
+                        th.join(timeout=2)
+    finally:
+        hook.__exit__(None, None, None)
+        sys.modules.pop(_MODULE, None)
+        shutil.rmtree(workdir, ignore_errors=True)
+        logging.disable(logging.NOTSET)
+
+
+def bounded_aborted(tier, seed):
+    p = Part("C30", "abandoned-executions", [f"{EX}:TestCaseExecutor.execute", f"{EX}:TestCaseExecutor._execute_test_case"],
+             scope="real TestCaseExecutor with a 0.3 s time-out: 6 test cases that change process-wide state (disable / re-enable "
+                   "logging, reseed, print, replace sys.stdout, consume random numbers) and then loop until the executor abandons "
+                   "them, each followed by 2 probe test cases; state and probe result compared as in the other part",
+             bound="6 x 2 scenarios")
+    return guarded(p, _check_aborted, tier, seed)
+
+
+BOUNDED = [bounded_c30, bounded_aborted]
 META = {"level": "other", "explanation": "bounded contract check of the real executor over enumerated execution histories",
         "rule": "one case per (history, probe)"}
 
